@@ -266,9 +266,12 @@ func c12Owners(r *Run, nOwners int) {
 		} else {
 			w := t.Pick([]int{3, 3, 4})
 			// SQLite's byte-range requests over several locks are exclusive
-			// requests and unlocks (READ1-4, CKPT+RECOVER); shared requests name
-			// one lock
-			if op := th.prog[len(th.prog)-1]; w == 2 && (op == "rlock" || op == "canrlock") {
+			// requests and unlocks (READ1-4, CKPT+RECOVER); shared requests and
+			// queries (F_GETLK: the RESERVED byte only) name one lock. A query
+			// over two locks looks at them one after the other and can answer
+			// "free" although they never were at the same instant; the property
+			// speaks of each lock, so such a query is not generated.
+			if op := th.prog[len(th.prog)-1]; w == 2 && (op == "rlock" || op == "canrlock" || op == "canlock") {
 				w = t.Next(2)
 			}
 			th.which = append(th.which, w)
